@@ -49,7 +49,7 @@ def run(tier, seed, res):
     sk = _skips()
     res.coverage["excluded_defect_classes"] = sorted(k for k, v in sk.items() if v == "1")
     nw = 16
-    per = 8 if quick else 1250
+    per = 6 if quick else 1250
     rd = core.run_dir(PROP)
     jobs = []
     for i in range(nw):
